@@ -87,6 +87,33 @@ class Observer:
             d[f"pin{k}"] = (pv >> k) & 1
         return tuple(d[nme] for nme in self.order)
 
+    def write_script(self, reg_index, value, pins=0):
+        """the bus cycles of one complete register write (ascending chunks) followed by one idle cycle"""
+        s, e, w, rd, wr = self.ref.regs[reg_index]
+        out = []
+        for j in range(e - s):
+            out.append(self.mk((s + j, 0, 1, (value >> (j * self.dw)) & ((1 << self.dw) - 1)), pins))
+        out.append(self.mk((0, 0, 0, 0), pins))
+        return out
+
+    def prefixes(self):
+        """Wide register files: the breadth-first budget alone barely completes one multi-chunk write, so the
+        search is also started from states reached by complete Mode / Output writes (oracle checked on the way)."""
+        if self.meta_err or self.free or not self.cfg.get("scripted"):
+            return ()
+        n = self.n
+        pp = int("01" * n, 2)           # all push-pull
+        od = int("10" * n, 2)           # all open-drain
+        mix = int(("11100100" * n)[-2 * n:], 2)
+        ones = (1 << n) - 1
+        alt = int("10" * n, 2) & ones
+        scripts = []
+        for mode in (pp, od, mix):
+            scripts.append(self.write_script(0, mode))
+            scripts.append(self.write_script(0, mode) + self.write_script(2, ones, pins=alt))
+            scripts.append(self.write_script(0, mode) + self.write_script(2, alt) + self.write_script(3, int("0110" * n, 2) & ((1 << (2 * n)) - 1)))
+        return scripts
+
     def letters(self, obs):
         if self.meta_err:
             return [tuple(0 for _ in range(4 + self.n))]
@@ -127,8 +154,11 @@ class Observer:
                 eo, eoe = ob, 1 if md == 1 else 0
             if md == 3:
                 alt |= 1 << k
-            if outs[pi[f"o{k}"]] != eo or outs[pi[f"oe{k}"]] != eoe:
-                return dict(msg=f"pin {k} in mode {md} with output bit {ob}: o={outs[pi[f'o{k}']]} oe={outs[pi[f'oe{k}']]}, expected o={eo} oe={eoe}",
+            # the property constrains whether the pin is driven and, when it is, with what; the level on `o`
+            # of a disabled pin is not observable at the pad
+            if outs[pi[f"oe{k}"]] != eoe or (eoe and outs[pi[f"o{k}"]] != eo):
+                return dict(msg=f"pin {k} in mode {md} with output bit {ob}: o={outs[pi[f'o{k}']]} oe={outs[pi[f'oe{k}']]}, expected "
+                                f"{'o=' + str(eo) + ' ' if eoe else ''}oe={eoe}",
                             signature=dict(kind="oracle", what="pin_drive", mode=md)), obs
         if outs[pi["alt_mode"]] != alt:
             return dict(msg=f"alt_mode={outs[pi['alt_mode']]:#b}, expected {alt:#b} (mode={mode:#b})",
@@ -164,7 +194,7 @@ def configs(tier):
     out.append(dict(pins=1, aw=2, dw=8, stages=1, driver="free", elab_twice=True))
     # two pins: free driver over a thinned write alphabet in quick, complete in thorough
     if quick:
-        out.append(dict(pins=2, aw=2, dw=8, stages=0, driver="conf", wvals=(0, 0xF, 0x6, 0x9, 0x1), pinv=(0, 1, 2, 3)))
+        out.append(dict(pins=2, aw=2, dw=8, stages=0, driver="conf", wvals=(0, 0xF, 0x6, 0x9, 0x1, 0x3, 0xC), pinv=(0, 1, 2, 3)))
         out.append(dict(pins=2, aw=2, dw=8, stages=1, driver="conf", wvals=(0, 0xF, 0x6, 0x9), pinv=(0, 1, 2)))
         out.append(dict(pins=2, aw=2, dw=8, stages=2, driver="conf", wvals=(0, 0xD, 0x6), pinv=(0, 2)))
         out.append(dict(pins=2, aw=2, dw=8, stages=3, driver="conf", wvals=(0, 0x7), pinv=(0, 1)))
@@ -174,20 +204,25 @@ def configs(tier):
         out.append(dict(pins=2, aw=2, dw=8, stages=2, driver="conf", wvals=(0, 0xF, 0x6, 0x9, 0xD), pinv=(0, 1, 2, 3)))
         out.append(dict(pins=2, aw=2, dw=8, stages=3, driver="conf", wvals=(0, 0xF, 0x6, 0x9), pinv=(0, 1, 2)))
     # wider: multi-chunk Mode / SetClr (conforming driver, capped)
-    wide = [dict(pins=4, aw=2, dw=8, stages=0, driver="conf", wvals=(0, 0xFF, 0x1B, 0xE4, 0x66), pinv=(0, 0xF, 0x5)),
-            dict(pins=5, aw=3, dw=8, stages=1, driver="conf", wvals=(0, 0xFF, 0x1B, 0x66), pinv=(0, 0x1F, 0x11)),
+    # write tokens: 0x1B = modes 3,2,1,0 / 0xE4 = 0,1,2,3 / 0x66, 0x99 = codes 2,1,2,1 and 1,2,1,2 per chunk, so every
+    # pin - also those in the last, partial chunk - sees push-pull, open-drain, set and clear
+    wide = [dict(pins=4, aw=2, dw=8, stages=0, driver="conf", wvals=(0, 0xFF, 0x1B, 0xE4, 0x66), pinv=(0, 0xF, 0x5, 0x9)),
+            dict(pins=5, aw=3, dw=8, stages=1, driver="conf", wvals=(0, 0xFF, 0x1B, 0x66, 0x99), pinv=(0, 0x1F, 0x11, 0x0A)),
             # more pins than data bits, WITH synchroniser stages (Input spans two chunks)
-            dict(pins=9, aw=4, dw=8, stages=1, driver="conf", wvals=(0, 0xFF, 0x9C), pinv=(0, 0x1FF, 0x101)),
-            dict(pins=10, aw=4, dw=8, stages=2, driver="conf", wvals=(0, 0xFF), pinv=(0, 0x3FF, 0x200)),
-            dict(pins=9, aw=3, dw=16, stages=2, driver="conf", wvals=(0, 0xFFFF, 0x6C93), pinv=(0, 0x1FF))]
+            dict(pins=9, aw=4, dw=8, stages=1, driver="conf", wvals=(0, 0xFF, 0x9C, 0x66, 0x99), pinv=(0, 0x1FF, 0x101, 0x0AA)),
+            dict(pins=10, aw=4, dw=8, stages=2, driver="conf", wvals=(0, 0xFF, 0x66, 0x99), pinv=(0, 0x3FF, 0x200, 0x155)),
+            dict(pins=9, aw=3, dw=16, stages=2, driver="conf", wvals=(0, 0xFFFF, 0x6C93, 0x9966), pinv=(0, 0x1FF, 0x0AA))]
     for c in wide:
         c["capped_ok"] = True
-    out += wide
+    # each wide configuration twice: breadth-first from reset, and from the scripted (post-write) states
+    out += wide + [dict(c, scripted=True) for c in wide]
     return out
 
 
 def run_config(cfg, tier, seed):
-    cap = dict(max_states=250_000 if tier == "quick" else 2_000_000, max_seconds=40 if tier == "quick" else 600)
+    # configurations flagged capped_ok are explored breadth-first up to a STATE budget (deterministic); the
+    # wall-clock limit is only a safety net far above what the budget needs
+    cap = dict(max_states=70_000 if tier == "quick" else 1_500_000, max_seconds=900 if tier == "quick" else 7200)
     if not cfg.get("capped_ok"):
         cap = dict(max_states=4_000_000, max_seconds=3000)
     return explore_hw(build, Observer, cfg, tier, seed, **cap)
@@ -209,5 +244,7 @@ def main(tier, seed):
 ASSUMPTIONS = [
     "Amaranth 0.5.10 front end, build_netlist and Simulator are the trusted base", "rst held at 0",
     "free CSR driver for single-chunk register files; protocol-conforming driver where registers span several chunks",
+    "register write timing as the CSR bus documents it (a register sees its write one cycle after the last chunk is written)",
+    "the level on `o` of a pin whose output is disabled is not checked (not observable at the pad)",
     "configurations flagged capped_ok explore a prefix of the reachable graph (breadth-first to the cap) with token alphabets",
 ]
